@@ -368,7 +368,7 @@ def check_leak(case):
         _check_leak(case)
 
 
-WATCHDOG_S = 15
+WATCHDOG_S = 3      # a fit takes milliseconds; the NNLS non-termination (DESIGN 6.4) is cut off here
 
 
 def _check_leak(case):
